@@ -116,7 +116,7 @@ def run(ctx, res):
         "case in which an error or an unmarshalable result travels (E/R with a non-success outcome), or an N/C/W case; "
         "G/S count in evaluations only")
     res.extra["outcome_distribution"] = dist
-    res.extra["exhaustive"] = ("all terms of depth <= 2 over the 12-leaf basis (joins of width <= 2, 3-joins of leaves)"
+    res.extra["exhaustive_families"] = ("all terms of depth <= 2 over the 12-leaf basis (joins of width <= 2, 3-joins of leaves)"
                                + ("; depth 3 with one non-leaf operand per join" if ctx["tier"] == "thorough" else ""))
     order = ["E:J", "E:C", "E:D", "K:self:J", "K:deadline:J", "R:u:J", "N:reply", "W:copy"]
     res.samples = [samples[k] for k in order if k in samples][:8]
